@@ -1,3 +1,377 @@
 package main
 
-func c16Run(dir, mode string, r int) {}
+// C16: the same block on the same prior state, executed repeatedly - in this process, in a second process with
+// another GOMAXPROCS, and later in time.  Process A ("create") builds the scenarios: it extends real ledgers block by
+// block, executes every candidate block R times before (possibly) submitting it, and writes the serialized blocks to
+// DIR/scenarios.json.  Process B ("again") opens fresh ledgers from the same keys (so the same genesis), reads the very
+// same blocks back and does the same.  A state is named by the hash of the block it was reached by (the header chain
+// commits to the whole input history), a block by its hash; the result digest covers everything in ExecuteResult.
+
+import (
+	"encoding/hex"
+	"encoding/json"
+	"fmt"
+	"math/big"
+	"os"
+	"path/filepath"
+	"runtime"
+	"time"
+
+	"github.com/ontio/ontology-crypto/keypair"
+	"github.com/polynetwork/poly/account"
+	"github.com/polynetwork/poly/common"
+	"github.com/polynetwork/poly/common/config"
+	vconfig "github.com/polynetwork/poly/consensus/vbft/config"
+	"github.com/polynetwork/poly/core/store"
+	"github.com/polynetwork/poly/core/types"
+	"github.com/polynetwork/poly/native/event"
+	_ "github.com/polynetwork/poly/native/service"
+	nm "github.com/polynetwork/poly/native/service/governance/node_manager"
+	rm "github.com/polynetwork/poly/native/service/governance/relayer_manager"
+	scm "github.com/polynetwork/poly/native/service/governance/side_chain_manager"
+	hscom "github.com/polynetwork/poly/native/service/header_sync/common"
+	"github.com/polynetwork/poly/native/service/header_sync/eth"
+	"github.com/polynetwork/poly/native/service/utils"
+
+	"verifh/kit/ledgerkit"
+	"verifh/kit/vio"
+)
+
+type scStep struct {
+	Label  string `json:"label"`
+	Block  string `json:"block"`  // hex of the serialized block
+	Commit bool   `json:"commit"` // submit after the executions
+	Wall   string `json:"wall"`   // router name when the block carries a header dated in the future
+	Expect string `json:"expect"` // "ok": every transaction must succeed when the block is built (guards the scenario itself)
+}
+type scenario struct {
+	Name  string   `json:"name"`
+	Vbft  bool     `json:"vbft"`
+	Keys  int      `json:"keys"`
+	Steps []scStep `json:"steps"`
+}
+type scenFile struct {
+	NotBefore int64      `json:"not_before"`
+	Scenarios []scenario `json:"scenarios"`
+}
+
+type c16ctx struct {
+	dir  string
+	proc string
+	r    int
+}
+
+func (c *c16ctx) logExec(sc, label, wall string, stateID, blockID common.Uint256, res store.ExecuteResult, err error, pan string, k int) {
+	d := "panic:" + pan
+	if pan == "" {
+		if err != nil {
+			d = "error" // the error text is not part of the observation
+		} else {
+			d = resultDigest(res)
+		}
+	}
+	states := make([]int, 0)
+	for _, n := range res.Notify {
+		if n != nil {
+			states = append(states, int(n.State))
+		}
+	}
+	vio.Emit(map[string]interface{}{"ev": "exec", "s": sc + ":" + stateID.ToHexString(), "b": blockID.ToHexString(), "d": d,
+		"scen": sc, "label": label, "wall": wall, "proc": c.proc, "gomaxprocs": runtime.GOMAXPROCS(0), "rep": k,
+		"unix": time.Now().Unix(), "txstates": states})
+}
+
+// runStep executes the block R times on the ledger's current state, then submits it if asked.
+func (c *c16ctx) runStep(lg *ledgerkit.Ledger, sc string, st scStep, b *types.Block) {
+	stateID := lg.L.GetCurrentBlockHash()
+	var last store.ExecuteResult
+	for k := 0; k < c.r; k++ {
+		var res store.ExecuteResult
+		var err error
+		pan := vio.Safe(func() { res, err = lg.L.ExecuteBlock(b) })
+		c.logExec(sc, st.Label, st.Wall, stateID, b.Hash(), res, err, pan, k)
+		if pan != "" || err != nil {
+			vio.Fatal("scenario %s step %s: execute failed: %v %s", sc, st.Label, err, pan)
+		}
+		last = res
+	}
+	if st.Expect == "ok" && c.proc == "A" {
+		for i, n := range last.Notify {
+			if n.State != event.CONTRACT_STATE_SUCCESS {
+				vio.Fatal("scenario %s step %s: transaction %d failed at build time (scenario is broken)", sc, st.Label, i)
+			}
+		}
+	}
+	if st.Commit {
+		if err := lg.L.SubmitBlock(b, last); err != nil {
+			vio.Fatal("scenario %s step %s: submit: %v", sc, st.Label, err)
+		}
+	}
+}
+
+func blockHex(b *types.Block) string {
+	sink := common.NewZeroCopySink(nil)
+	vio.Must(b.Serialization(sink))
+	return hex.EncodeToString(sink.Bytes())
+}
+
+func c16Run(dir, mode string, r int) {
+	quietPoly()
+	config.EXTRA_INFO_HEIGHT_FORK_CHECK = false // SideChain codecs would otherwise read the global ledger.DefLedger (nil here)
+	eth.VerifSealHook = func(h *eth.Header) (bool, error) { return true, nil }
+	ledgerkit.RegisterProbe()
+	vio.Must(os.MkdirAll(dir, 0755))
+	file := filepath.Join(dir, "scenarios.json")
+	switch mode {
+	case "create":
+		c := &c16ctx{dir: dir, proc: "A", r: r}
+		sf := &scenFile{}
+		rows := readRows()
+		sf.Scenarios = append(sf.Scenarios, c.createProbe(rows))
+		nat, notBefore := c.createNative()
+		sf.Scenarios = append(sf.Scenarios, nat)
+		sf.NotBefore = notBefore
+		b, _ := json.Marshal(sf)
+		vio.Must(os.WriteFile(file, b, 0644))
+		vio.Emit(map[string]interface{}{"info": true, "not_before": notBefore, "now": time.Now().Unix()})
+	default: // "again:<tag>"
+		c := &c16ctx{dir: dir, proc: mode, r: r}
+		raw, err := os.ReadFile(file)
+		vio.Must(err)
+		var sf scenFile
+		vio.Must(json.Unmarshal(raw, &sf))
+		for time.Now().Unix() < sf.NotBefore {
+			time.Sleep(200 * time.Millisecond)
+		}
+		for _, sc := range sf.Scenarios {
+			accts := ledgerkit.LoadOrCreateAccounts(filepath.Join(dir, "keys-"+sc.Name), sc.Keys)
+			ldir := filepath.Join(dir, mode+"-"+sc.Name)
+			os.RemoveAll(ldir)
+			lg, err := ledgerkit.Open(ldir, accts, sc.Vbft)
+			vio.Must(err)
+			for _, st := range sc.Steps {
+				raw, err := hex.DecodeString(st.Block)
+				vio.Must(err)
+				b, err := types.BlockFromRawBytes(raw)
+				vio.Must(err)
+				c.runStep(lg, sc.Name, st, b)
+			}
+			lg.L.Close()
+		}
+	}
+}
+
+// ---- probe scenario ---------------------------------------------------------------------------------------------
+
+func (c *c16ctx) createProbe(rows []row) scenario {
+	sc := scenario{Name: "probe", Vbft: false, Keys: 1}
+	accts := ledgerkit.LoadOrCreateAccounts(filepath.Join(c.dir, "keys-probe"), 1)
+	ldir := filepath.Join(c.dir, "A-probe")
+	os.RemoveAll(ldir)
+	lg, err := ledgerkit.Open(ldir, accts, false)
+	vio.Must(err)
+	pl := &probeLedger{lg: lg, intern: map[string]int{}, nonce: 5 << 24}
+	add := func(st scStep, b *types.Block) {
+		st.Block = blockHex(b)
+		sc.Steps = append(sc.Steps, st)
+		c.runStep(lg, sc.Name, st, b)
+	}
+	// prior state as in the rows, then every row as a candidate on that state; every 8th candidate is submitted so that
+	// later candidates run on states produced by earlier ones
+	if len(rows) > 0 && len(rows[0].Prior) > 0 {
+		var top, sub []ledgerkit.Step
+		for _, e := range rows[0].Prior {
+			s := ledgerkit.Step{Op: "put", K: e.K, V: idStr("", e.V)}
+			if e.C == 1 {
+				top = append(top, s)
+			} else {
+				sub = append(sub, s)
+			}
+		}
+		if len(sub) > 0 {
+			top = append(top, ledgerkit.Step{Op: "call", Steps: sub})
+		}
+		add(scStep{Label: "prior", Commit: true, Expect: "ok"}, lg.Build([]*types.Transaction{ledgerkit.ProbeTx(top, 7)}, nil))
+	}
+	for i, r := range rows {
+		commit := i%8 == 7
+		tag := fmt.Sprintf("r%d:", i)
+		b, _, _ := pl.buildBlock(r.Blk, tag, commit)
+		add(scStep{Label: fmt.Sprintf("row%d", i), Commit: commit}, b)
+	}
+	lg.L.Close()
+	return sc
+}
+
+// ---- native-contract scenario (vbft ledger, 4 validators) -------------------------------------------------------
+
+type natCtx struct {
+	lg    *ledgerkit.Ledger
+	accts []*account.Account
+	nonce uint32
+}
+
+func (n *natCtx) pubkeys() []keypair.PublicKey {
+	var r []keypair.PublicKey
+	for _, a := range n.accts {
+		r = append(r, a.PublicKey)
+	}
+	return r
+}
+
+func (n *natCtx) tx(contract common.Address, method string, args []byte, signer *account.Account) *types.Transaction {
+	n.nonce++
+	t := ledgerkit.InvokeTx(contract, method, args, n.nonce)
+	if signer != nil {
+		var err error
+		t, err = ledgerkit.SignTx(t, signer)
+		vio.Must(err)
+	}
+	return t
+}
+
+// opTx is signed by the consensus operator (multi-signature address of the validators, m = n - (n-1)/3).
+func (n *natCtx) opTx(contract common.Address, method string, args []byte) *types.Transaction {
+	n.nonce++
+	t := ledgerkit.InvokeTx(contract, method, args, n.nonce)
+	m := len(n.accts) - (len(n.accts)-1)/3
+	t, err := ledgerkit.MultiSignTx(t, n.pubkeys(), uint16(m), n.accts[:m])
+	vio.Must(err)
+	return t
+}
+
+func ser(f func(*common.ZeroCopySink)) []byte {
+	s := common.NewZeroCopySink(nil)
+	f(s)
+	return s.Bytes()
+}
+
+func (c *c16ctx) createNative() (scenario, int64) {
+	sc := scenario{Name: "native", Vbft: true, Keys: 4}
+	accts := ledgerkit.LoadOrCreateAccounts(filepath.Join(c.dir, "keys-native"), 4)
+	ldir := filepath.Join(c.dir, "A-native")
+	os.RemoveAll(ldir)
+	lg, err := ledgerkit.Open(ldir, accts, true)
+	vio.Must(err)
+	n := &natCtx{lg: lg, accts: accts, nonce: 9 << 24}
+	add := func(label string, commit bool, wall, expect string, txs ...*types.Transaction) {
+		b := lg.Build(txs, nil)
+		st := scStep{Label: label, Commit: commit, Wall: wall, Expect: expect, Block: blockHex(b)}
+		sc.Steps = append(sc.Steps, st)
+		c.runStep(lg, sc.Name, st, b)
+	}
+	// deterministic outsiders (keys derived from fixed seeds would need a seeded generator; fresh keys are fine because
+	// process B reads the finished blocks)
+	cand := account.NewAccount("")
+	owner := account.NewAccount("")
+	relayer := account.NewAccount("")
+
+	// governance: candidate registration and approvals (pool map grows to 5), black-listing attempt by a non-validator
+	regArgs := ser(func(s *common.ZeroCopySink) {
+		(&nm.RegisterPeerParam{PeerPubkey: vconfig.PubkeyID(cand.PublicKey), Address: cand.Address}).Serialization(s)
+	})
+	add("gov:register-candidate", true, "", "ok", n.tx(utils.NodeManagerContractAddress, nm.REGISTER_CANDIDATE, regArgs, cand))
+	var appr []*types.Transaction
+	for _, a := range accts[:3] {
+		args := ser(func(s *common.ZeroCopySink) {
+			(&nm.PeerParam{PeerPubkey: vconfig.PubkeyID(cand.PublicKey), Address: a.Address}).Serialization(s)
+		})
+		appr = append(appr, n.tx(utils.NodeManagerContractAddress, nm.APPROVE_CANDIDATE, args, a))
+	}
+	// a failing transaction in the middle (approval by an outsider) keeps C15-style mixing in the block
+	bad := ser(func(s *common.ZeroCopySink) {
+		(&nm.PeerParam{PeerPubkey: vconfig.PubkeyID(cand.PublicKey), Address: owner.Address}).Serialization(s)
+	})
+	// the approvals are spread over two blocks so that the half-collected signer set is part of a block's final write set
+	add("gov:approve-candidate-x2+outsider", true, "", "", appr[0], n.tx(utils.NodeManagerContractAddress, nm.APPROVE_CANDIDATE, bad, owner), appr[1])
+	add("gov:approve-candidate-final", true, "", "ok", appr[2])
+
+	// side chains bsc (6) and eth (2): registration by an owner, approval by three validators
+	bscExtra, _ := json.Marshal(map[string]interface{}{"ChainID": bscChainID})
+	ccmc := make([]byte, 20)
+	ccmc[19] = 0xcc
+	regSC := func(id, router uint64, name string, extra []byte) *types.Transaction {
+		p := &scm.RegisterSideChainParam{Address: owner.Address, ChainId: id, Router: router, Name: name, BlocksToWait: 1, CCMCAddress: ccmc, ExtraInfo: extra}
+		s := common.NewZeroCopySink(nil)
+		vio.Must(p.Serialization(s))
+		return n.tx(utils.SideChainManagerContractAddress, scm.REGISTER_SIDE_CHAIN, s.Bytes(), owner)
+	}
+	add("sc:register-bsc+eth", true, "", "ok", regSC(6, utils.BSC_ROUTER, "bsc", bscExtra), regSC(2, utils.ETH_ROUTER, "eth", nil))
+	var apSC, apSC2 []*types.Transaction
+	for _, id := range []uint64{6, 2} {
+		for i, a := range accts[:3] {
+			args := ser(func(s *common.ZeroCopySink) { (&scm.ChainidParam{Chainid: id, Address: a.Address}).Serialization(s) })
+			t := n.tx(utils.SideChainManagerContractAddress, scm.APPROVE_REGISTER_SIDE_CHAIN, args, a)
+			if i < 2 {
+				apSC = append(apSC, t)
+			} else {
+				apSC2 = append(apSC2, t)
+			}
+		}
+	}
+	add("sc:approve-x4", true, "", "ok", apSC...)
+	add("sc:approve-final-x2", true, "", "ok", apSC2...)
+	// fee votes of two validators: the stored record carries NativeService.GetTime() (the block timestamp) and a map
+	var fees []*types.Transaction
+	for i, a := range accts[:2] {
+		p := &scm.UpdateFeeParam{Address: a.Address, ChainId: 6, View: 0, Fee: big.NewInt(int64(10 + 20*i))}
+		fees = append(fees, n.tx(utils.SideChainManagerContractAddress, scm.UPDATE_FEE, ser(p.Serialization), a))
+	}
+	add("sc:update-fee-x2", true, "", "ok", fees...)
+
+	// relayer registration + approvals
+	relArgs := ser(func(s *common.ZeroCopySink) {
+		(&rm.RelayerListParam{AddressList: []common.Address{relayer.Address, cand.Address}, Address: owner.Address}).Serialization(s)
+	})
+	add("rel:register", true, "", "ok", n.tx(utils.RelayerManagerContractAddress, rm.REGISTER_RELAYER, relArgs, owner))
+	var apRel []*types.Transaction
+	for _, a := range accts[:3] {
+		args := ser(func(s *common.ZeroCopySink) { (&rm.ApproveRelayerParam{ID: 0, Address: a.Address}).Serialization(s) })
+		apRel = append(apRel, n.tx(utils.RelayerManagerContractAddress, rm.APPROVE_REGISTER_RELAYER, args, a))
+	}
+	add("rel:approve-x2", true, "", "ok", apRel[:2]...)
+	add("rel:approve-final", true, "", "ok", apRel[2])
+
+	// light clients: trust roots (operator witness), header batches, a reorganisation on eth
+	bc := newBscChain(3)
+	syncGen := func(id uint64, hdr []byte) *types.Transaction {
+		args := ser(func(s *common.ZeroCopySink) { (&hscom.SyncGenesisHeaderParam{ChainID: id, GenesisHeader: hdr}).Serialization(s) })
+		return n.opTx(utils.HeaderSyncContractAddress, hscom.SYNC_GENESIS_HEADER, args)
+	}
+	syncHdr := func(id uint64, hdrs ...[]byte) *types.Transaction {
+		args := ser(func(s *common.ZeroCopySink) {
+			(&hscom.SyncBlockHeaderParam{ChainID: id, Address: relayer.Address, Headers: hdrs}).Serialization(s)
+		})
+		return n.tx(utils.HeaderSyncContractAddress, hscom.SYNC_BLOCK_HEADER, args, relayer)
+	}
+	ec := newEthChain()
+	add("lc:genesis-bsc+eth", true, "", "ok", syncGen(6, bc.genesisJSON()), syncGen(2, ec.genesisJSON()))
+	h201, h202 := bc.next(0), bc.next(0)
+	a1 := ec.child(ec.genesis, 20, 1)
+	a2 := ec.child(a1, 20, 1)
+	add("lc:headers-bsc-201-202+eth-a1-a2", true, "", "ok", syncHdr(6, hdrJSON(h201), hdrJSON(h202)), syncHdr(2, hdrJSON(a1), hdrJSON(a2)))
+	b1 := ec.child(ec.genesis, 1, 2)
+	b2 := ec.child(b1, 1, 2)
+	add("lc:eth-reorg-b1-b2", true, "", "ok", syncHdr(2, hdrJSON(b1)), syncHdr(2, hdrJSON(b2)))
+	// a deposit proven against bsc header 201 (state root = root of the synthetic account trie), then its replay
+	imp := bc.importTx(n, relayer, 201)
+	add("ccm:import-bsc", true, "", "ok", imp(1))
+	add("ccm:import-bsc-replayed", false, "", "", imp(2))
+
+	// wall clock: headers dated in the future, executed now and (by the other processes) a few seconds later.
+	// bsc accepts header.Time <= now; eth accepts header.Time <= now + 15 s.
+	now := time.Now().Unix()
+	notBefore := now + futureDelta + 2
+	h203 := bc.next(uint64(now + futureDelta))
+	add("wall:bsc-header-dated-now+4s", false, "bsc", "", syncHdr(6, hdrJSON(h203)))
+	now = time.Now().Unix()
+	c1 := ec.childAt(b2, uint64(now+15+futureDelta), 3)
+	if now+futureDelta+2 > notBefore {
+		notBefore = now + futureDelta + 2
+	}
+	add("wall:eth-header-dated-now+15s+4s", false, "eth", "", syncHdr(2, hdrJSON(c1)))
+	lg.L.Close()
+	return sc, notBefore
+}
+
+const futureDelta = 4
